@@ -209,7 +209,10 @@ static char *led_readchar(int c, int kmap)
 	int i, n;
 	if (c == TK_CTL('v')) {		/* literal character */
 		buf[0] = term_read();
-		buf[1] = '\0';
+		n = (buf[0] & 0xc0) == 0xc0 ? uc_len(buf) : 1;
+		for (i = 1; i < n; i++)
+			buf[i] = term_read();
+		buf[n] = '\0';
 		return buf;
 	}
 	if (c == TK_CTL('k')) {		/* digraph */
